@@ -304,7 +304,8 @@ EXTRA = {
  "C03": " Added in session 5 (Props/C03more.lean): the right-hand side built from a whole renumbered series equals the true velocities (forward and, at the last frame, backward), hence `series_forward/_backward_balance` and `series_recovers_tensions` end to end; right-hand side under translation, affine maps of space and of the clock; `exact_rhs_solves_iff` (mean one is necessary), `backends_agree`, `rhs_round3_bound` / `nnls_round3_fit_bound` with the concrete three-decimal rounding.",
  "C05": " Added in session 5 (Props/C05more.lean): the certificate is exact: `kkt_iff_minimiser` (KKT at slack 0 ⇔ non-negative minimiser; necessity is new), `stationary_iff_minimiser`, fitted values unique even when rank deficient, unique point under coercivity, `kkt_near_minimiser` for inconsistent systems too, certificates survive rescaling and row permutation, the augmented objective written out, `mean_eq_one_of_consistent`.",
  "C07": " Added in session 5 (Props/C07more.lean): `bigEdgesList_restoreAll`: every cell shifted / reversed at once, the dictionary permuted, ids free ⇒ same interfaces up to direction and same tension rows (the full quantifier; earlier theorems changed one cell per step); renumbering of cell ids and of mesh-edge ids leaves interfaces, classification, own cells, pressure rows and the whole pressure system identical; `are_neighbours` independent of cycle start.",
- "C09": " Added in session 5 (Props/C09more.lean): `failing_nil_iff`; adding one fresh vertex / edge / cell keeps consistency (any interleaving of constructor calls), `delCell_consistent` (all six clauses), `delEdge_preserves_five`, deletions idempotent, `surfaceEvolver_consistent`, orphan removal idempotent / identity when covered, consistency depends on topology only (`consistent_mapCoords`), input lists may be permuted and cycles rotated / reversed, own lists are permutations of the incident edges / containing cells, `ownEdges_length_eq_degree`; eight witnesses for each well-formedness clause."
+ "C09": " Added in session 5 (Props/C09more.lean): `failing_nil_iff`; adding one fresh vertex / edge / cell keeps consistency (any interleaving of constructor calls), `delCell_consistent` (all six clauses), `delEdge_preserves_five`, deletions idempotent, `surfaceEvolver_consistent`, orphan removal idempotent / identity when covered, consistency depends on topology only (`consistent_mapCoords`), input lists may be permuted and cycles rotated / reversed, own lists are permutations of the incident edges / containing cells, `ownEdges_length_eq_degree`; eight witnesses for each well-formedness clause.",
+ "C15": " Added in session 5 (Props/C15more.lean): the symmetry clause for the whole owned function: `createLattice_invariant` — for any injective pixel map (the 8 symmetries of the image, translations) and either `mirror_y` setting, `create_lattice` raises the same exception or returns the same lattice up to coordinates (cells, mesh edges, keys, border / external flags, interfaces, artefact groups, D16 flag), consistent iff the original is; every clean-up stage is coordinate free; `createLattice_mirror`; vertex count depends only on the set of contour pixels."
 }
 
 NOT_APPLICABLE = {
